@@ -79,6 +79,11 @@ def inputs_for(tier: str, rng) -> list[tuple[bytes, int]]:
             data.append(form % k)
     arr = b",".join(b"%d" % (i % 256) for i in range(520))
     data += [arr + b" -bxor 7", arr + b" -bxor 700", arr + b" -bxor $k", b"0x41," * 510 + b"0x42 -bxor", b"300," * 510 + b"1", b"256,1," * 260 + b"1 -bxor 1"]
+    for n in (20, 50, 99, 100, 101, 128, 150, 200, 255, 256, 257, 300, 400, 499, 500, 501, 502, 512):      # around every plausible length threshold
+        vals = list(range(256))
+        rng.shuffle(vals)
+        distinct = b",".join(b"%d" % vals[i % 256] for i in range(n))           # pairwise distinct up to 256: nothing for a key guesser to count
+        data += [distinct + b" -bxor $key", distinct + b" -bxor", b"$b = " + distinct + b";", b"0x%02x," % 7 * (n - 1) + b"0x08 -bxor $k"]
     for odd in (b"0X41", b"0x4F", b"065", b"007", b"0x0", b"00x41", b"256", b"999", b"0XFF"):
         data.append(b"1," * 255 + odd + b"," + b"2," * 254 + b"3")          # one oddly spelled element among 510
         data.append((odd + b",") * 505 + b"1 -bxor 7")
